@@ -564,6 +564,19 @@ def generate(repo):
     g.item('intersect', 'prysm/x/raytracing/spencer_and_murty.py:intersect', lambda: get_def(sm, 'intersect'),
            vertex_plane, f'def toVertexPlane (P0 S : V3 K) : V3 K := {M}.toVertexPlane P0 S')
 
+    def newton_start():
+        fn = get_def(sm, 'intersect')
+        (ret,) = find_returns(fn)
+        if not (isinstance(ret, ast.Call) and ast.unparse(ret.func) == 'newton_raphson_solve_s' and len(ret.args) >= 4):
+            return None
+        a0, a3 = ast.unparse(ret.args[0]), _n(ast.unparse(ret.args[3]))
+        if a0 == 'P1' and a3 == 's1':
+            return True          # Newton runs in the surface frame from the vertex-plane point, with the caller's guess
+        if a0 == 'P0':
+            return False         # Newton would run from the (possibly very distant) ray origin: s ~ distance, residual ~ ulp(distance)
+        return None
+    g.fact('newtonStartsOnVertexPlane', 'prysm/x/raytracing/spencer_and_murty.py:intersect', newton_start)
+
     def newton():
         fn = get_def(sm, 'newton_raphson_solve_s')
         loop = [n for n in fn.body if isinstance(n, ast.For)][0]
@@ -571,7 +584,7 @@ def generate(repo):
         stmts = [s for s in loop.body if isinstance(s, ast.Assign) and ast.unparse(s.targets[0]) in want]
         assert [ast.unparse(s.targets[0]) for s in stmts] == list(want)
         src = ast.unparse(loop)
-        assert has(src, 'sagj, r = FFp(Xj, Yj)', 'rays_which_converged = delta < eps',
+        assert has(src, 'sagj, r = FFp(Xj, Yj)', 'scale = np.maximum(1, abs(Pj).max(axis=1))', 'rays_which_converged = delta < eps * scale',
                    'Pj_out[insert_mask] = Pj[rays_which_converged]', 'r_out[insert_mask] = r[rays_which_converged]',
                    'sj[mask] = sjp1')
         env = {'P1[mask]': ('P1', 'v'), 'S_mask': ('S', 'v'), 'sj_bcast': ('sj', 's'), 'sj_mask': ('sj', 's'),
@@ -583,7 +596,10 @@ def generate(repo):
                 + lean_def('newtonF', b, 'K', lets, tr.env['Fj'][0]) + '\n'
                 + lean_def('newtonFp', b, 'K', lets, tr.env['Fpj'][0]) + '\n'
                 + lean_def('newtonNext', b, 'K', lets, tr.env['sjp1'][0]) + '\n'
-                + lean_def('newtonDelta', b, 'K', lets, tr.env['delta'][0]))
+                + lean_def('newtonDelta', b, 'K', lets, tr.env['delta'][0]) + '\n'
+                # `np.maximum(1, abs(Pj).max(axis=1))`, read per ray (recognised by the two `has` patterns above)
+                + 'def newtonScale (absK : K → K) (maxK : K → K → K) (P : V3 K) : K := '
+                  'maxK (1 : K) (maxK (maxK (absK P.x) (absK P.y)) (absK P.z))')
     b = '(absK : K → K) (P1 S : V3 K) (sj sag : K) (r : V3 K)'
     g.item('newton_raphson_solve_s', 'prysm/x/raytracing/spencer_and_murty.py:newton_raphson_solve_s',
            lambda: get_def(sm, 'newton_raphson_solve_s'), newton,
@@ -591,7 +607,9 @@ def generate(repo):
             f'def newtonF {b} : K := (V3.add P1 (V3.smul sj S)).z - sag\n'
             f'def newtonFp {b} : K := V3.dot S r\n'
             f'def newtonNext {b} : K := sj - ((V3.add P1 (V3.smul sj S)).z - sag) / V3.dot S r\n'
-            f'def newtonDelta {b} : K := absK (sj - ((V3.add P1 (V3.smul sj S)).z - sag) / V3.dot S r - sj)'))
+            f'def newtonDelta {b} : K := absK (sj - ((V3.add P1 (V3.smul sj S)).z - sag) / V3.dot S r - sj)\n'
+            'def newtonScale (absK : K → K) (maxK : K → K → K) (P : V3 K) : K := '
+            'maxK (1 : K) (maxK (maxK (absK P.x) (absK P.y)) (absK P.z))'))
 
     return g.finish()
 
